@@ -96,14 +96,18 @@ TrNext(e) ==
 (* The other stepping paths of a LINEAR generator (next_u64 of a 32-bit-word type = two engine steps,  *)
 (* next_u32 of a 64-bit-word type = one step, fill_bytes(8) = 8 / word bytes steps): only the STATE     *)
 (* they leave is specified here (C07: every path advances the one engine); the returned value is C05's. *)
-StepsOf(k, e) == IF e = "fill_bytes" THEN Ev.n \div (IF OutLimbs(k) = 2 THEN 4 ELSE 8)
+(* fill_bytes(n) = n \div 8 next_u64 and, for a tail, one more next_u64 (5..7 bytes) or next_u32 (1..4 bytes) *)
+StepsOf(k, e) == IF e = "fill_bytes"
+                 THEN LET q == Ev.n \div 8  tail == Ev.n % 8
+                          per64 == IF OutLimbs(k) = 2 THEN 2 ELSE 1
+                      IN q * per64 + (IF tail > 4 THEN per64 ELSE IF tail > 0 THEN 1 ELSE 0)
                  ELSE IF OutLimbs(k) = 2 THEN (IF e = "next_u32" THEN 1 ELSE 2) ELSE 1
 TrStatePath(e) ==
   /\ IsEvent(e) /\ NoPanic
   /\ Ev.g \in DOMAIN gens
   /\ LET G == gens[Ev.g] IN
        /\ G.k \in LinearKinds /\ ~Native(G.k, e) /\ ~Has(Ev, "role")
-       /\ e = "fill_bytes" => Ev.n % 8 = 0 /\ Ev.n > 0
+       /\ e = "fill_bytes" => Ev.n > 0
        /\ ~Has(Ev, "n") \/ e = "fill_bytes"
        /\ LET r == AlgTake(G.k, G.s, StepsOf(G.k, e)) IN
             /\ ObsOk(G.k, r[1])
